@@ -94,6 +94,13 @@ def check_rename(case, ctx: Ctx):
             codes0 = np.asarray(f[case["group"]]["bins/chrom"][:], dtype=np.int64)
         clr = cooler.Cooler(uri)
         cur = list(bt["names"])
+        br0 = model.bins_rows(bt)
+        # the object is USED before the first renaming (name-based lookups and joined tables may be cached on it)
+        for ci, nm in enumerate(cur):
+            ext = clr.extent(nm)
+            check((int(ext[0]), int(ext[1])) == (offs[ci], offs[ci + 1]), f"extent({nm!r}) before any renaming")
+        _ = clr.pixels(join=True)[:]
+        _ = clr.matrix(balance=False, as_pixels=True, join=True)[:]
         for step, m in enumerate(case["chain"]):
             old = list(cur)
             cur = [m.get(x, x) for x in cur]
@@ -119,6 +126,15 @@ def check_rename(case, ctx: Ctx):
                 px = c.pixels()[:]
                 check(list(zip(px["bin1_id"].tolist(), px["bin2_id"].tolist(), px["count"].tolist())) == [tuple(r[:3]) for r in rows],
                       f"step {step} ({label}): pixels changed")
+                jp = c.pixels(join=True)[:]
+                want_c1 = [cur[codes0[r[0]]] for r in rows]
+                want_c2 = [cur[codes0[r[1]]] for r in rows]
+                check([str(x) for x in jp["chrom1"]] == want_c1 and [str(x) for x in jp["chrom2"]] == want_c2,
+                      lambda: f"step {step} ({label}): joined pixel table carries {[str(x) for x in jp['chrom1']][:4]}, new names are {want_c1[:4]}")
+                check(jp["start1"].tolist() == [br0[r[0]][1] for r in rows] and jp["end2"].tolist() == [br0[r[1]][2] for r in rows],
+                      f"step {step} ({label}): joined pixel coordinates changed")
+                mp = c.matrix(balance=False, as_pixels=True, join=True)[:]
+                check([str(x) for x in mp["chrom1"]] == want_c1, f"step {step} ({label}): matrix(as_pixels, join) carries old names")
                 check(np.array_equal(c.matrix(balance=False)[:], F), f"step {step} ({label}): full matrix changed")
                 for ci, nm in enumerate(cur):
                     lo, hi = offs[ci], offs[ci + 1]
@@ -148,7 +164,56 @@ def check_rename(case, ctx: Ctx):
                           "longer" if any(len(v) > longest0 for m in case["chain"] for v in m.values()) else "not-longer"])
 
 
-CHECKS = {"rename": check_rename}
+# ---------------------------------------------------------------------------
+# many contigs: the enum header of bins/chrom is close to the HDF5 limit
+# ---------------------------------------------------------------------------
+
+@st.composite
+def manycontig_cases(draw):
+    nch = draw(st.sampled_from([400, 900, 1500, 2000, 2300]))
+    newlen = draw(st.integers(8, 60))
+    frac = draw(st.sampled_from(["all", "all", "half", "one"]))
+    return {"part": "manycontig", "nch": nch, "newlen": newlen, "which": frac}
+
+
+def check_manycontig(case, ctx: Ctx):
+    import h5py
+    import pandas as pd
+
+    import cooler
+
+    nch = case["nch"]
+    names = [f"c{k}" for k in range(nch)]
+    bins = pd.DataFrame({"chrom": names, "start": 0, "end": [10 + k % 5 for k in range(nch)]})
+    ids = sorted({(k, min(nch - 1, k + (k * 7) % 11)) for k in range(0, nch, max(1, nch // 40))})
+    px = pd.DataFrame({"bin1_id": [a for a, b in ids], "bin2_id": [b for a, b in ids], "count": 1})
+    path = ctx.tmp(".cool")
+    try:
+        call("create_cooler(many contigs)", cooler.create_cooler, path, bins, px, ordered=True, h5opts={"compression": None})
+        clr = cooler.Cooler(path)
+        _ = clr.extent(names[nch // 2])
+        sel = range(nch) if case["which"] == "all" else range(0, nch, 2) if case["which"] == "half" else [nch // 3]
+        m = {names[k]: (f"renamed_{k}_" + "x" * 80)[: max(case["newlen"], len(f"renamed_{k}_"))] for k in sel}
+        call(f"rename_chroms({len(m)} of {nch} contigs to {case['newlen']}-character names)", cooler.rename_chroms, clr, m)
+        cur = [m.get(x, x) for x in names]
+        for label, c in (("same object", clr), ("reopened", cooler.Cooler(path))):
+            check(c.chromnames == cur, f"many contigs ({label}): chromnames differ after renaming")
+            b = call(f"bins()[:] ({label})", lambda c=c: c.bins()[:])
+            check([str(x) for x in b["chrom"]] == cur, f"many contigs ({label}): bin labels differ after renaming")
+            k = nch - 2
+            ext = call(f"extent by new name ({label})", c.extent, cur[k])
+            check((int(ext[0]), int(ext[1])) == (k, k + 1), f"many contigs ({label}): extent({cur[k]!r}) = {ext}")
+            j = call(f"pixels(join=True) ({label})", lambda c=c: c.pixels(join=True)[:])
+            check([str(x) for x in j["chrom2"]] == [cur[b_] for _, b_ in ids], f"many contigs ({label}): joined chrom2 differs")
+        with h5py.File(path, "r") as f:
+            check(len(f["bins/chrom"]) == nch and "chrom" in f["bins"], "bins/chrom missing or truncated after renaming")
+            enum = h5py.check_dtype(enum=f["bins/chrom"].dtype)
+    finally:
+        ctx.clean(path)
+    ctx.record(case, True, ["manycontig", f"nch={nch}", "enum-after" if enum is not None else "int-after"])
+
+
+CHECKS = {"rename": check_rename, "manycontig": check_manycontig}
 
 
 def replay(ctx: Ctx, case):
@@ -157,4 +222,6 @@ def replay(ctx: Ctx, case):
 
 def run(ctx: Ctx):
     q = ctx.tier == "quick"
-    run_given(ctx, "rename", cases(), check_rename, per_shard(ctx, 560 if q else 14000), batch=40)
+    if not run_given(ctx, "rename", cases(), check_rename, per_shard(ctx, 480 if q else 14000), batch=40):
+        return
+    run_given(ctx, "manycontig", manycontig_cases(), check_manycontig, per_shard(ctx, 64 if q else 1600), batch=8)
